@@ -391,14 +391,25 @@ Definition run_Constraint (kind : bytes) (a : sx) : option sx :=
                   if negb (is_ascii_edge text) then oom else
                   sx_out (c <- parse_constraint (pv_of tbl) sys text;;
                           ps <- parse_probes tbl sys probes;;
-                          rows <- map_res (fun o => match o with
-                                                    | None => Ok (SL [SB s_verr])
+                          rows <- map_res (fun ot => let '(o, t) := ot in
+                                                    ms <- (match t with
+                                                           | SB text =>
+                                                               match match_string (pv_of tbl) c text with
+                                                               | Ok b0 => Ok (sx_bool b0)
+                                                               | Err _ => Ok (SI 0)
+                                                               | Panic p => Panic p
+                                                               | OutOfFuel => OutOfFuel
+                                                               end
+                                                           | _ => Panic PExplicit end);;
+                                                    let mr := if sys_eqb sys SNPM then ms else SI (-1) in
+                                                    match o with
+                                                    | None => Ok (SL [SB s_verr; ms; mr])
                                                     | Some v =>
                                                         m <- match_version c v;;
                                                         mp <- match_version_prerelease c v;;
                                                         sm <- set_match_version (c_set c) v false;;
-                                                        Ok (SL [sx_bool m; sx_bool mp; sx_bool sm])
-                                                    end) ps;;
+                                                        Ok (SL [sx_bool m; sx_bool mp; sx_bool sm; ms; mr])
+                                                    end) (combine ps probes);;
                           Ok (SL [SB sym_ok; SL rows]))
               | _, _ => badcase
               end
